@@ -349,13 +349,20 @@ def execute(prog):
                                 [1, 1, None, mc.h, 2 * mc.h]))
                             core.bump(out["probes"], "object_on_twin_curve")
                         flav = rnd.random()
-                        if flav < 0.4:
-                            pobj = le.PointJacobi(cfp, Pobj[0], Pobj[1], 1,
-                                                  mc.n)
-                        elif flav < 0.55:
-                            pobj = le.PointJacobi(cfp, Pobj[0], Pobj[1], 1)
-                        else:
-                            pobj = _legacy(le, cfp, Pobj)
+                        try:
+                            if flav < 0.4:
+                                pobj = le.PointJacobi(cfp, Pobj[0], Pobj[1],
+                                                      1, mc.n)
+                            elif flav < 0.55:
+                                pobj = le.PointJacobi(cfp, Pobj[0], Pobj[1], 1)
+                            else:
+                                pobj = _legacy(le, cfp, Pobj)
+                        except _LegacyRefused:
+                            raise
+                        except Exception:
+                            # a point class that refuses to represent the
+                            # object at all: nothing to deliver
+                            raise _LegacyRefused()
                         vk = lk.VerifyingKey.from_public_point(
                             pobj, curve, validate_point=True)
                     elif cont == "bare":
